@@ -183,6 +183,12 @@ def struct_programs(tier):
         yield {"calls": [["from", ["t", "t"]], ["select", [A(["aggf", "SUM", f("t", "a"), crit], "sf"), ["agg", "COUNT", "*"]]]]}
         yield {"calls": [["from", ["t", "t"]], ["select", [f("t", "s"), A(["aggf", "MAX", ["arith", "+", f("t", "a"), raw(100)], crit], "mf")]], ["groupby", [f("t", "s")]],
                          ["orderby", [f("t", "s")], "asc"]]}
+    # a selected, aliased term re-used as PARTITION BY / ORDER BY key of a window
+    g = A(["arith", "+", f("t", "b"), raw(0)], "g")
+    o = A(f("t", "a"), "oa")
+    yield {"calls": [["from", ["t", "t"]], ["select", [f("t", "id"), g, A(["win", "ROW_NUMBER", [], [g], [[f("t", "id"), "asc"]]], "w")]]] + oid}
+    yield {"calls": [["from", ["t", "t"]], ["select", [f("t", "id"), o, A(["win", "SUM", [f("t", "id")], [], [[o, "desc"], [f("t", "id"), "asc"]]], "w")]]] + oid}
+    yield {"calls": [["from", ["t", "t"]], ["select", [f("t", "id"), g, o, A(["win", "COUNT", [f("t", "id")], [g], [[o, "asc"]]], "w")]]] + oid}
     # CASE with falsy THEN / ELSE values in projection, grouping and DML
     for els in (raw(0), raw(""), raw(False), raw(0.0), ["null"], raw(1), None):
         for then in (raw(0), raw("hi"), raw(False)):
@@ -190,6 +196,21 @@ def struct_programs(tier):
             yield {"calls": [["from", ["t", "t"]], ["select", [f("t", "id"), A(case, "c")]]] + oid}
             yield {"calls": [["from", ["t", "t"]], ["select", [A(case, "k"), ["agg", "COUNT", "*"]]], ["groupby", [A(case, "k")]]]}
             yield {"calls": [["update", ["t", "t"]], ["set", "b", case]]}
+
+
+def equiv_pairs():
+    """two ways of writing the same thing (a column given by name / as a field of the first FROM table): one statement"""
+    for with_join in (False, True):
+        for frm in (["t", "t"], ["t", "t", "ta"]):
+            B = frm[2] if len(frm) > 2 else "t"
+            joins = [["join", "inner", ["t", "u"], ["on", ["cmp", "=", f(B, "id"), f("u", "tid")]]]] if with_join else []
+            base = [["from", frm]] + joins
+            yield ({"calls": base + [["select", [f(B, "a"), f(B, "id")]], ["orderby", [["name", "id"]], "desc"]]},
+                   {"calls": base + [["select", [f(B, "a"), f(B, "id")]], ["orderby", [f(B, "id")], "desc"]]})
+            yield ({"calls": base + [["select", [["name", "id"], ["agg", "COUNT", "*"]]], ["groupby", [["name", "id"]]], ["orderby", [["name", "id"]], "asc"]]},
+                   {"calls": base + [["select", [f(B, "id"), ["agg", "COUNT", "*"]]], ["groupby", [f(B, "id")]], ["orderby", [f(B, "id")], "asc"]]})
+            yield ({"calls": base + [["select", [["name", "a"]]], ["where", ["cmp", ">", f(B, "b"), raw(1)]], ["orderby", [["name", "id"]], "asc"], ["limit", 3]]},
+                   {"calls": base + [["select", [f(B, "a")]], ["where", ["cmp", ">", f(B, "b"), raw(1)]], ["orderby", [f(B, "id")], "asc"], ["limit", 3]]})
 
 
 def setop_programs(tier):
@@ -245,6 +266,7 @@ def chunks(tier, seed):
     out = [{"gen": "select", "part": i, "of": 64, "tier": tier} for i in range(64)]
     out += [{"gen": "setop", "part": 0, "of": 1, "tier": tier}, {"gen": "dml", "part": 0, "of": 1, "tier": tier}]
     out += [{"gen": "struct", "part": i, "of": 4, "tier": tier} for i in range(4)]
+    out.append({"gen": "equiv"})
     out += [{"gen": "expr", "part": i, "of": 16, "tier": tier} for i in range(16)]
     return out
 
@@ -254,6 +276,10 @@ _P = {}
 
 def expand(chunk):
     g = chunk["gen"]
+    if g == "equiv":
+        for a, b in equiv_pairs():
+            yield {"k": "equiv", "a": a, "b": b}
+        return
     if g == "expr":
         if "e" not in _P:
             _P["e"] = list(c06.triples())
@@ -444,6 +470,28 @@ def run_case(case):
                 res.violate("C03|expr|%s" % sg, "expression in %s: SQLite gives another result for the rendered statement than for the "
                             "fully parenthesised transcription (minimal failing sub-tree %r)" % (case["place"], m),
                             tree=e, sql=sql, reference=refsql, got=str(got)[:200], want=str(want)[:200])
+        return res
+    if case["k"] == "equiv":
+        res.nontrivial = 1
+        res.states.append(h64(json.dumps(case["a"], sort_keys=True)))
+        try:
+            sa = prog.render(prog.build(case["a"], dialect=D), D)[0]
+            sb = prog.render(prog.build(case["b"], dialect=D), D)[0]
+        except Exception as e:
+            res.violate("C03|equiv|build-raises|%s" % type(e).__name__, "the library raised for a program of the relational core", program=case["a"], error=str(e)[:200])
+            return res
+        res.transitions += 2
+        res.outcomes.append(h64(sa))
+        if sa != sb:
+            res.violate("C03|equiv|by-name-differs", "a column given by name is not the column of the statement's first FROM table", by_name=sa, by_field=sb,
+                        program=case["a"])
+            return res
+        db, _fam = engine()
+        try:
+            load(db, T_POOL[:3], U_POOL[:3])
+            db.execute(sa).fetchall()
+        except sqlite3.Error as e:
+            res.violate("C03|equiv|engine-rejects", "SQLite rejects the statement: %s" % e, sql=sa, program=case["a"])
         return res
     p = case["p"]
     res.states.append(h64(json.dumps(p, sort_keys=True)))
